@@ -19,15 +19,22 @@ What is demanded (property statement, nothing more):
 
 *Not* demanded: that the answer is the earliest admissible lattice point (the classes document that
 interrupts may be skipped); whether it is, is recorded as an outcome class only.
+
+Bounds: DESIGN.md asks for depth 5 (quick) / 7 (thorough) with an 11-move alphabet; because merged
+state spaces are small (10^3..10^5 states per parameter set) the check runs 14 moves to depth
+7 / 8 for the ~60 hand-picked parameter sets and to depth 4 / 6 for a product lattice of 310 more.
 """
 
 from __future__ import annotations
 
 import math
 
+from mc.core import CaseTimeout  # (mc.core does not import pde/numba at module level)
+
 PROPERTY = "C09"
 LEVEL = "model_checking"
 
+CaseTimeoutTypes = (CaseTimeout, KeyboardInterrupt)
 EPS = 2.0**-52
 INF = math.inf
 MAX_STEPS = 9  # initialize + at most 8 calls of next(); enters the derived tolerances below
@@ -50,7 +57,7 @@ MOVES = [
     # ---- beyond the alphabet of DESIGN.md (cheap because of state merging) ----
     "+1-ulp",  # one float below r + p
     "+1+ulp",  # one float above r + p
-    "+3",  # r + 3 p     (exactly on a scheduled time several periods ahead)
+    "+3",  # r + 3 p     (constant: exactly on a scheduled time several periods ahead)
 ]
 N_DESIGN_MOVES = 11
 
@@ -346,6 +353,8 @@ def check_step(P, step, q, a, prev_q, prev_a):
     Returns (list of (kind, message), outcome class)."""
     cls, g = P["cls"], P["args"]
     bad = []
+    if isinstance(a, Raised):
+        return [(f"raises {a.name}", f"call {step}: query {q!r} -> {a.text}")], "bad"
     if not isinstance(a, float) or a != a or a == -INF:
         return [("answer is not a time", f"call {step}: query {q!r} -> {a!r}")], "bad"
 
@@ -475,7 +484,31 @@ def _advance_class(a, q, prev_a, tol_q, unit, m):
 # ----------------------------------------------------------------------------------------------
 
 
-def _as_float(a):
+class Raised:
+    """stands for the answer of a call that raised (never a documented refusal for these classes)"""
+
+    def __init__(self, exc):
+        self.name = type(exc).__name__
+        self.text = f"{self.name}: {str(exc)[:200]}"
+
+    def __eq__(self, other):
+        return isinstance(other, Raised) and other.text == self.text
+
+    def __hash__(self):
+        return hash(self.text)
+
+    def __repr__(self):
+        return f"<raised {self.text}>"
+
+
+def _ask(method, q):
+    """call initialize/next of the real object; the answer as a Python float"""
+    try:
+        a = method(q)
+    except CaseTimeoutTypes:
+        raise
+    except Exception as exc:  # noqa: BLE001
+        return Raised(exc)
     try:
         return float(a)
     except Exception:  # noqa: BLE001
@@ -501,7 +534,7 @@ def _run(P, hist):
     P = dict(P)
     obj = build(P)
     q = float(P["t_init"])
-    a = _as_float(obj.initialize(q))
+    a = _ask(obj.initialize, q)
     trace = [(q, a)]
     bad, _ = check_step(P, 0, q, a, None, None)
     viol = [_viol(P, k, m, [], trace) for k, m in bad]
@@ -510,7 +543,7 @@ def _run(P, hist):
             break
         r = a if math.isfinite(a) else q
         q2 = query(mv, r, period(P, i, a), q)
-        a2 = _as_float(obj.next(q2))
+        a2 = _ask(obj.next, q2)
         trace.append((q2, a2))
         bad, _ = check_step(P, i + 1, q2, a2, q, a)
         viol += [_viol(P, k, m, hist[: i + 1], trace) for k, m in bad]
@@ -541,7 +574,7 @@ def bfs(case):
 
     obj = build(P)
     q0 = float(P["t_init"])
-    a0 = _as_float(obj.initialize(q0))
+    a0 = _ask(obj.initialize, q0)
     executed += 1
     bad, out = check_step(P, 0, q0, a0, None, None)
     counts[out] += 1
@@ -573,7 +606,7 @@ def bfs(case):
             for mv in range(nmoves):
                 q2 = query(mv, r, p, q)
                 restore(obj, snap)
-                a2 = _as_float(obj.next(q2))
+                a2 = _ask(obj.next, q2)
                 executed += 1
                 transitions += 1
                 bad, out = check_step(P, d + 1, q2, a2, q, a)
@@ -608,7 +641,7 @@ def bfs(case):
         for mv in range(nmoves):
             q2 = query(mv, r, p, q)
             restore(o, snap)
-            a2 = _as_float(o.next(q2))
+            a2 = _ask(o.next, q2)
             res.append((q2, a2, canon(o)))
         return res
 
